@@ -166,6 +166,14 @@ func (p *provider) watchChanges(ctx context.Context, rsf RuleSetFetcher) error {
 			return err
 		}
 
+		// in case of network issues, like dns errors, timeouts and alike, there is no answer from the
+		// endpoint. The rule set received before is preserved, as it is the case for invalid answers.
+		// Only answers, like a not 200 status code, or an empty rule set result in its removal
+		if (errors.Is(err, heimdall.ErrCommunication) || errors.Is(err, heimdall.ErrCommunicationTimeout)) &&
+			!errors.Is(err, errUnexpectedResponse) {
+			return err
+		}
+
 		ruleSet = &config2.RuleSet{
 			MetaData: config2.MetaData{
 				Source:  "http_endpoint:" + rsf.ID(),
